@@ -45,7 +45,7 @@ func (c *Channel) read() {
 	defer func() {
 		verifYield("R_exit")
 
-		c.readLoopExited = true
+		c.readLoopExited.Store(true)
 
 		close(c.readerDone)
 	}()
@@ -147,7 +147,7 @@ func (c *Channel) Read() ([]byte, error) {
 
 	verifYield("O_flag")
 
-	if c.readLoopExited {
+	if c.readLoopExited.Load() {
 		return nil, util.ErrConnectionError
 	}
 
